@@ -39,11 +39,21 @@ func (node *tagBlockNode) Execute(ctx *ExecutionContext, writer TemplateWriter) 
 	}
 
 	blockWrapper := blockWrappers[lenBlockWrappers-1]
+
+	// "block" refers to this block while its definition runs, and to the enclosing
+	// block again afterwards (a block nested in another one must not leave its own
+	// information behind for the rest of the outer definition)
+	outerInfo, hasOuterInfo := ctx.Private["block"]
 	ctx.Private["block"] = tagBlockInformation{
 		ctx:      ctx,
 		wrappers: blockWrappers[0 : lenBlockWrappers-1],
 	}
 	err := blockWrapper.Execute(ctx, writer)
+	if hasOuterInfo {
+		ctx.Private["block"] = outerInfo
+	} else {
+		delete(ctx.Private, "block")
+	}
 	if err != nil {
 		return err
 	}
